@@ -187,4 +187,28 @@ def cfgRnd : Rnd CKey Nat :=
   { cfg := cfgCfg, fold := fun k => (lowerBytes k.1, lowerBytes k.2),
     noRepl := fun k => k.1 = exportedServices, delBatch := 1, upsLimit := 1 }
 
+/-! ### the second unique index of ACL policies and roles: the name
+
+    `aclPolicySetTxn` / `aclRoleSetTxn` reject an upsert whose (lower-cased) name is held by a row
+    with a different ID — checked against the table as it stands at that point of the batch
+    transaction; one rejection aborts the whole `ACLPolicyBatchSetRequest`. The round model above
+    assumes every apply succeeds; this is the part of the store that can make one fail. -/
+
+structure NRow where
+  id   : Bytes
+  name : Bytes
+deriving Repr, DecidableEq
+
+def nUpsert (s : List NRow) (x : NRow) : Option (List NRow) :=
+  if s.any (fun y => lowerBytes y.name == lowerBytes x.name && y.id != x.id) then none
+  else some ((s.filter fun y => lowerBytes y.id != lowerBytes x.id) ++ [x])
+
+/-- one upsert batch = one transaction: all or nothing, elements in the order given -/
+def nBatch : List NRow → List NRow → Option (List NRow)
+  | s, [] => some s
+  | s, x :: xs =>
+    match nUpsert s x with
+    | none => none
+    | some s' => nBatch s' xs
+
 end CV.Repl
